@@ -300,60 +300,97 @@ pub fn run(opts: &Opts) -> Report {
 /// share and update (a cache, a lazily built index) shows up as an answer that differs; what the OS scheduler happens
 /// to interleave is not controlled, so this can miss, but it cannot raise a false alarm on a library whose readers
 /// are independent.
+#[derive(Clone)]
+enum SOp { Find(usize, String), NoCase(usize, String), Seq(usize, Vec<String>), Text(usize, usize, usize), Query(String), Json, AnnText(String), Related(String), Regex(usize, String), Split(usize) }
+
+fn sop_name(op: &SOp) -> String {
+    match op {
+        SOp::Find(r, w) => format!("find_text({:?}) in resource {}", w, r),
+        SOp::NoCase(r, w) => format!("find_text_nocase({:?}) in resource {}", w, r),
+        SOp::Seq(r, f) => format!("find_text_sequence({:?}, case-insensitive) in resource {}", f, r),
+        SOp::Text(r, b, e) => format!("text {}..{} of resource {}", b, e, r),
+        SOp::Query(q) => q.clone(),
+        SOp::Json => "to_json_string".into(),
+        SOp::AnnText(a) => format!("text of {}", a),
+        SOp::Related(a) => format!("related_text(overlaps) of {}", a),
+        SOp::Regex(r, p) => format!("find_text_regex({:?}) in resource {}", p, r),
+        SOp::Split(r) => format!("split_text in resource {}", r),
+    }
+}
+
+fn sop_run(store: &AnnotationStore, op: &SOp) -> String {
+    let res = |k: &usize| store.resource(format!("big{}", k).as_str()).expect("resource");
+    match op {
+        SOp::Find(r, w) => format!("{:?}", res(r).find_text(w).map(|t| (t.begin(), t.end())).collect::<Vec<_>>()),
+        SOp::NoCase(r, w) => format!("{:?}", res(r).find_text_nocase(w).map(|t| (t.begin(), t.end(), t.text().to_string())).collect::<Vec<_>>()),
+        SOp::Seq(r, f) => { let fr: Vec<&str> = f.iter().map(|x| x.as_str()).collect(); format!("{:?}", res(r).find_text_sequence(&fr, |c| !c.is_alphanumeric(), false).map(|v| v.iter().map(|t| (t.begin(), t.end())).collect::<Vec<_>>())) }
+        SOp::Text(r, b, e) => res(r).textselection(&Offset::simple(*b, *e)).map(|t| t.text().to_string()).unwrap_or_else(|e| format!("error {}", e)),
+        SOp::Query(q) => match Query::try_from(q.as_str()).and_then(|q| store.query(q)) { Ok(it) => format!("{:?}", it.map(|row| row.iter().map(|x| match x { QueryResultItem::Annotation(a) => a.handle().as_usize(), QueryResultItem::TextSelection(t) => t.begin(), _ => 0 }).collect::<Vec<_>>()).collect::<Vec<_>>()), Err(e) => format!("error {}", e) },
+        SOp::Json => store.to_json_string(store.config()).map(|s| format!("{} bytes, fnv {}", s.len(), fnv(&s))).unwrap_or_else(|e| format!("error {}", e)),
+        SOp::AnnText(id) => store.annotation(id.as_str()).map(|a| a.text_join("|")).unwrap_or_default(),
+        SOp::Related(id) => store.annotation(id.as_str()).map(|a| format!("{:?}", a.related_text(TextSelectionOperator::overlaps()).map(|t| (t.begin(), t.end())).collect::<Vec<_>>())).unwrap_or_default(),
+        SOp::Regex(r, p) => match regex::Regex::new(p) { Ok(re) => res(r).find_text_regex(&[re], None, true).map(|it| format!("{:?}", it.map(|m| m.textselections().iter().map(|t| (t.begin(), t.end())).collect::<Vec<_>>()).collect::<Vec<_>>())).unwrap_or_else(|e| format!("error {}", e)), Err(_) => "bad regex".into() },
+        SOp::Split(r) => format!("{:?}", res(r).split_text(" \u{1F600} ").map(|t| (t.begin(), t.end())).take(80).collect::<Vec<_>>()),
+    }
+}
+
+/// free-running reader threads over one store with three resources: every read-only operation of every thread must
+/// give what it gives when run alone (each thread favours a resource of its own, so that state shared between
+/// searches of different resources shows)
 fn stress(rep: &mut Report, opts: &Opts) {
     let mut ex = crate::fam::store::Exec::new();
-    // multi-byte text longer than a few milestones, words to search for, annotations with data
-    let words: Vec<String> = (0..60).map(|i| format!("w\u{f6}rd{}\u{e9}", i)).collect();
-    let text = words.join(" \u{1F600} ");
-    ex.store.add_resource(TextResourceBuilder::new().with_id("big").with_text(text.clone())).ok();
-    let chars: Vec<char> = text.chars().collect();
-    let mut pos = 0usize;
-    for (i, w) in words.iter().enumerate() {
-        let n = w.chars().count();
-        if i % 3 == 0 { ex.store.annotate(AnnotationBuilder::new().with_id(format!("a{}", i)).with_target(SelectorBuilder::textselector("big", Offset::simple(pos, pos + n))).with_data("s", "k", (i % 5) as isize)).ok(); }
-        pos += n + 3;
-    }
-    let _ = chars;
-    let store = Arc::new(ex.store);
-    #[derive(Clone)]
-    enum Op { Find(String), Text(usize, usize), Query(String), Json, AnnText(String), Regex(String), Split }
-    let run = |store: &AnnotationStore, op: &Op| -> String {
-        let r = store.resource("big").expect("resource");
-        match op {
-            Op::Find(w) => format!("{:?}", r.find_text(w).map(|t| (t.begin(), t.end())).collect::<Vec<_>>()),
-            Op::Text(b, e) => r.textselection(&Offset::simple(*b, *e)).map(|t| t.text().to_string()).unwrap_or_else(|e| format!("error {}", e)),
-            Op::Query(q) => match Query::try_from(q.as_str()).and_then(|q| store.query(q)) { Ok(it) => format!("{:?}", it.map(|row| row.iter().map(|x| match x { QueryResultItem::Annotation(a) => a.handle().as_usize(), QueryResultItem::TextSelection(t) => t.begin(), _ => 0 }).collect::<Vec<_>>()).collect::<Vec<_>>()), Err(e) => format!("error {}", e) },
-            Op::Json => store.to_json_string(store.config()).map(|s| format!("{} bytes, fnv {}", s.len(), fnv(&s))).unwrap_or_else(|e| format!("error {}", e)),
-            Op::AnnText(id) => store.annotation(id.as_str()).map(|a| a.text_join("|")).unwrap_or_default(),
-            Op::Regex(p) => match regex::Regex::new(p) { Ok(re) => r.find_text_regex(&[re], None, true).map(|it| format!("{:?}", it.map(|m| m.textselections().iter().map(|t| (t.begin(), t.end())).collect::<Vec<_>>()).collect::<Vec<_>>())).unwrap_or_else(|e| format!("error {}", e)), Err(_) => "bad regex".into() },
-            Op::Split => format!("{:?}", r.split_text(" \u{1F600} ").map(|t| (t.begin(), t.end())).take(80).collect::<Vec<_>>()),
+    // multi-byte texts longer than a few milestones, of different lengths, words to search for, annotations with data
+    let nres = 3usize;
+    let mut words: Vec<Vec<String>> = vec![];
+    for k in 0..nres {
+        let w: Vec<String> = (0..(60 - 17 * k)).map(|i| if k == 0 { format!("w\u{f6}rd{}\u{e9}", i) } else { format!("{}Need{}le\u{c9}", ["x", "Yy", "zzz"][k], i) }).collect();
+        let text = w.join(if k == 1 { " \u{1F600}\u{1F600} " } else { " \u{1F600} " });
+        ex.store.add_resource(TextResourceBuilder::new().with_id(format!("big{}", k)).with_text(text)).ok();
+        let sep = if k == 1 { 4 } else { 3 };
+        let mut pos = 0usize;
+        for (i, x) in w.iter().enumerate() {
+            let n = x.chars().count();
+            if i % 3 == 0 { ex.store.annotate(AnnotationBuilder::new().with_id(format!("a{}_{}", k, i)).with_target(SelectorBuilder::textselector(format!("big{}", k), Offset::simple(pos, pos + n))).with_data("s", "k", (i % 5) as isize)).ok(); }
+            if i % 6 == 0 && pos >= 2 { ex.store.annotate(AnnotationBuilder::new().with_id(format!("o{}_{}", k, i)).with_target(SelectorBuilder::textselector(format!("big{}", k), Offset::simple(pos - 2, pos + 2))).with_data("s", "o", "x")).ok(); }
+            pos += n + sep;
         }
-    };
-    let mut ops: Vec<Op> = vec![Op::Json, Op::Split, Op::Regex("w\u{f6}rd[0-9]+".into()), Op::Regex("\u{e9} ".into()), Op::Query("SELECT ANNOTATION ?a WHERE DATA \"s\" \"k\" = 2;".into()), Op::Query("SELECT TEXT ?t WHERE RESOURCE \"big\"; DATA \"s\" \"k\" > 1;".into())];
-    for (i, w) in words.iter().enumerate() { ops.push(Op::Find(w.clone())); if i % 3 == 0 { ops.push(Op::AnnText(format!("a{}", i))); } if i % 7 == 0 { ops.push(Op::Text(i * 3, i * 3 + 17)); } }
-    let alone: Vec<String> = ops.iter().map(|op| run(&store, op)).collect();
+        words.push(w);
+    }
+    let store = Arc::new(ex.store);
+    let mut ops: Vec<SOp> = vec![SOp::Json, SOp::Query("SELECT ANNOTATION ?a WHERE DATA \"s\" \"k\" = 2;".into()), SOp::Query("SELECT TEXT ?t WHERE RESOURCE \"big0\"; DATA \"s\" \"k\" > 1;".into())];
+    for k in 0..nres {
+        ops.push(SOp::Split(k));
+        ops.push(SOp::Regex(k, if k == 0 { "w\u{f6}rd[0-9]+".into() } else { "Need[0-9]+le".into() }));
+        ops.push(SOp::Regex(k, "\u{e9} ".into()));
+        ops.push(SOp::NoCase(k, if k == 0 { "W\u{d6}RD".into() } else { "needle".into() }));
+        ops.push(SOp::NoCase(k, "LE\u{e9}".into()));
+        ops.push(SOp::Seq(k, if k == 0 { vec!["W\u{d6}RD3\u{c9}".into(), "\u{1F600}".into(), "w\u{f6}rd4\u{e9}".into()] } else { vec![words[k][2].to_uppercase(), "\u{1F600}".into()] }));
+        ops.push(SOp::Query(format!("SELECT TEXT ?t WHERE RESOURCE \"big{}\"; TEXT \"{}\" AS NOCASE;", k, if k == 0 { "W\u{d6}RD6\u{c9}" } else { "need3le\u{e9}" })));
+        for (i, w) in words[k].iter().enumerate() {
+            if i % 2 == k % 2 { ops.push(SOp::Find(k, w.clone())); }
+            if i % 5 == 0 { ops.push(SOp::NoCase(k, w.to_uppercase())); }
+            if i % 3 == 0 { ops.push(SOp::AnnText(format!("a{}_{}", k, i))); }
+            if i % 6 == 0 { ops.push(SOp::Related(format!("a{}_{}", k, i))); }
+            if i % 7 == 0 { ops.push(SOp::Text(k, i * 3, i * 3 + 17)); }
+        }
+    }
+    let alone: Vec<String> = ops.iter().map(|op| sop_run(&store, op)).collect();
+    // the case-insensitive searches find something (so that a wrong answer is distinguishable)
+    for (op, a) in ops.iter().zip(alone.iter()) { if let SOp::NoCase(..) = op { rep.count(if a == "[]" { "stress:nocase-empty" } else { "stress:nocase-found" }); } }
     let rounds = if opts.thorough() { 40 } else { 8 };
-    let nthreads = 4;
+    let nthreads = 6;
     let mismatch: Arc<Mutex<Vec<(usize, String)>>> = Arc::new(Mutex::new(vec![]));
     let mut handles = vec![];
     for t in 0..nthreads {
         let (store, ops, alone, mismatch) = (store.clone(), ops.clone(), alone.clone(), mismatch.clone());
         handles.push(std::thread::spawn(move || {
+            // threads 0-2 walk all operations in different orders; threads 3-5 stay on the operations of one resource
+            let mine: Vec<usize> = (0..ops.len()).filter(|i| t < 3 || match &ops[*i] { SOp::Find(r, _) | SOp::NoCase(r, _) | SOp::Seq(r, _) | SOp::Text(r, _, _) | SOp::Regex(r, _) | SOp::Split(r) => *r == t - 3, SOp::Query(q) => q.contains(&format!("big{}", t - 3)), _ => false }).collect();
             let r = std::panic::catch_unwind(std::panic::AssertUnwindSafe(|| {
-                for round in 0..rounds {
-                    for k in 0..ops.len() {
-                        let i = (k * (2 * t + 1) + round * 7 + t * 13) % ops.len();
-                        let got = { let r = store.resource("big").expect("resource"); let _ = r; 
-                            // (the closure cannot be shared across threads: re-dispatch here)
-                            match &ops[i] {
-                                Op::Find(w) => format!("{:?}", store.resource("big").unwrap().find_text(w).map(|t| (t.begin(), t.end())).collect::<Vec<_>>()),
-                                Op::Text(b, e) => store.resource("big").unwrap().textselection(&Offset::simple(*b, *e)).map(|t| t.text().to_string()).unwrap_or_else(|e| format!("error {}", e)),
-                                Op::Query(q) => match Query::try_from(q.as_str()).and_then(|q| store.query(q)) { Ok(it) => format!("{:?}", it.map(|row| row.iter().map(|x| match x { QueryResultItem::Annotation(a) => a.handle().as_usize(), QueryResultItem::TextSelection(t) => t.begin(), _ => 0 }).collect::<Vec<_>>()).collect::<Vec<_>>()), Err(e) => format!("error {}", e) },
-                                Op::Json => store.to_json_string(store.config()).map(|s| format!("{} bytes, fnv {}", s.len(), fnv(&s))).unwrap_or_else(|e| format!("error {}", e)),
-                                Op::AnnText(id) => store.annotation(id.as_str()).map(|a| a.text_join("|")).unwrap_or_default(),
-                                Op::Regex(p) => match regex::Regex::new(p) { Ok(re) => store.resource("big").unwrap().find_text_regex(&[re], None, true).map(|it| format!("{:?}", it.map(|m| m.textselections().iter().map(|t| (t.begin(), t.end())).collect::<Vec<_>>()).collect::<Vec<_>>())).unwrap_or_else(|e| format!("error {}", e)), Err(_) => "bad regex".into() },
-                                Op::Split => format!("{:?}", store.resource("big").unwrap().split_text(" \u{1F600} ").map(|t| (t.begin(), t.end())).take(80).collect::<Vec<_>>()),
-                            } };
+                for round in 0..rounds * (if t < 3 { 1 } else { 3 }) {
+                    for k in 0..mine.len() {
+                        let i = mine[(k * (2 * t + 1) + round * 7 + t * 13) % mine.len()];
+                        let got = sop_run(&store, &ops[i]);
                         if got != alone[i] { let mut m = mismatch.lock().unwrap(); if m.len() < 5 { m.push((i, got)); } return; }
                     }
                 }
@@ -366,7 +403,7 @@ fn stress(rep: &mut Report, opts: &Opts) {
     rep.case(Some("stress"));
     let m = mismatch.lock().unwrap();
     if let Some((i, got)) = m.first() {
-        let (what, want) = if *i == usize::MAX { ("a reader".to_string(), "no panic".to_string()) } else { (match &ops[*i] { Op::Find(w) => format!("find_text({:?})", w), Op::Text(b, e) => format!("text {}..{}", b, e), Op::Query(q) => q.clone(), Op::Json => "to_json_string".into(), Op::AnnText(a) => format!("text of {}", a), Op::Regex(p) => format!("find_text_regex({:?})", p), Op::Split => "split_text".into() }, alone[*i].clone()) };
-        rep.fail("oracle", "C20/free-running-readers-differ-from-sequential", vec![format!("stress: 4 threads x {} rounds over {} read-only operations on one store; {}", rounds, ops.len(), what)], &want.chars().take(200).collect::<String>(), &got.chars().take(200).collect::<String>());
+        let (what, want) = if *i == usize::MAX { ("a reader".to_string(), "no panic".to_string()) } else { (sop_name(&ops[*i]), alone[*i].clone()) };
+        rep.fail("oracle", "C20/free-running-readers-differ-from-sequential", vec![format!("stress: {} threads x {} rounds over {} read-only operations on one store with {} resources; {}", nthreads, rounds, ops.len(), nres, what)], &want.chars().take(200).collect::<String>(), &got.chars().take(200).collect::<String>());
     }
 }
